@@ -20,7 +20,8 @@ META = {
                    'input on the deviating path and additivity T(x) = T(x+r) + T(-r) is replayed on the real library); (2) the batched run must equal, slice by slice, '
                    'the same module run on each (1,1) slice alone - this is slice independence, same operator for every (n,c), and independence of batch size and '
                    'channel count in one identity. Optional prelude: another wavelet of the same filter length is run first in the same process with the same (B,C).',
-    'bounds': {'quick': {'transforms': KINDS, '(B,C)': [(1, 1), (2, 1), (1, 3), (2, 2)], 'configs per transform': '4-6 (wavelet/mode/size), sizes <= 8x8 (DTCWT 8x8, J<=2)',
+    'bounds': {'added_families': ['haar+periodization, filters longer than the signal with several slices', 'SWT J=3 8x8 for every (B,C)', '(B,C) = (2,17), (1,33), (2,17) on 4x4 / N=8; J=5 (N=40), J=4 (16x16)'],
+               'quick': {'transforms': KINDS, '(B,C)': [(1, 1), (2, 1), (1, 3), (2, 2)], 'configs per transform': '4-6 (wavelet/mode/size), sizes <= 8x8 (DTCWT 8x8, J<=2)',
                          'preludes': 'db3 -> coif1 / bior2.2 (same length 6) for the DWT/SWT kinds'},
                'thorough': {'(B,C)': [(1, 1), (2, 1), (1, 3), (2, 3), (3, 4)], 'configs per transform': '20', 'sizes': '<= 12x12'}},
     'outside': 'batch sizes / channel counts beyond the list; sizes beyond the list; thread-level parallelism inside kernels',
